@@ -459,7 +459,7 @@ Proof.
       { intros g Hg Q. apply (DIS g Q). apply in_flat_map. exists B0. split; assumption. }
       split; rewrite fs_mem_get, Oth; try (rewrite <- fs_mem_get; assumption); apply NIn; cbn [cache_names In]; auto. }
     destruct (IH fs1 Ft1 NDt) as (fs2 & down & Et & F2 & FM & Otht).
-    cbn [create_caches]. erewrite mbind_ok by exact E. erewrite mbind_ok by exact Et.
+    cbn [create_caches]. erewrite mbind_ok by exact E. erewrite mbind_ok by (apply mcatch_ok; exact Et).
     exists fs2, (ds :: down). split; [reflexivity|]. split; [|split].
     + cbn [map]. constructor; [|exact F2]. destruct CO as [Hb CO]. split; [exact Hb|].
       apply (CacheOf_frame p _ fs1 fs2); [exact CO|]. intros g Hg. apply Otht. intros Q. rewrite NF in Hg. apply (DIS g Hg Q).
@@ -495,7 +495,7 @@ Proof.
   assert (EE : ix_entries (d_index d) = []).
   { rewrite (rd_entries _ _ _ _ _ _ _ _ RD). apply sections_nil. }
   destruct (create_caches_ok name d cb EE Bs fs1 F1 NDc) as (fs2 & down & EC & F2 & FM & OthC).
-  erewrite mbind_ok by exact EC.
+  erewrite mbind_ok by (apply mcatch_ok; exact EC).
   do 2 eexists. split; [reflexivity|]. split; [|split; [reflexivity|]].
   - constructor; cbn [s_data s_down s_range].
     + apply (RepD_frame fs1 fs2); [exact RD| |]; apply OthC; intros Q.
